@@ -82,7 +82,8 @@ class Axis:
             return False
 
         for neighbour in self.neighbours:
-            if neighbour.is_defined:
+            # a neighbour that is defined by copied wires only has no chops to offer
+            if neighbour.is_defined and len(neighbour.wires.chops) > 0:
                 if neighbour.is_aligned(self):
                     for chop in neighbour.wires.chops:
                         self.wires.add_chop(chop.copy_preserving())
